@@ -64,11 +64,11 @@ def generate(rng, tier):
                 mcids = mcids + [c for c in contest_ids if c not in cids][:1]
             mod = [gen_contest(rng, c) for c in mcids]
         sessions.append({"TabulatorId": rng.randint(1, 20), "BatchId": rng.randint(1, 9), "RecordId": 1000 + k,
-                         "obfuscated": rng.chance(0.2), "CountingGroupId": rng.pick([1, 2, 2, 3]),
+                         "obfuscated": rng.chance(0.2), "CountingGroupId": rng.pick([1, 2, 2, 3, 0]),
                          "Original": orig, "Modified": mod, "modified_first": rng.chance(0.5),
                          "cards_split": rng.randint(1, 3), "key_shuffle": rng.getrandbits(16)})
     opts = {"use_current": rng.chance(0.6), "enforce_rules": rng.chance(0.6),
-            "include_groups": rng.pick([[], [], [2], [1, 2], [3]]), "pool_groups": rng.pick([[], [1], [2], [1, 3]])}
+            "include_groups": rng.pick([[], [], [2], [1, 2], [3], [0, 2], [1]]), "pool_groups": rng.pick([[], [1], [2], [1, 3], [0]])}
     nfiles = rng.pick([0, 0, 1, 2, 3])  # 0 = single file via read_cvrs
     return {"layout": layout, "sessions": sessions, "opts": opts, "nfiles": nfiles}
 
